@@ -136,6 +136,12 @@ pub fn inject(src: &str, pos: &[PosEntry], inj: &Injection) -> Option<(String, S
                 if src[close + 2..].trim_start().starts_with('}') {
                     return None;
                 }
+                // ... and so would a `}}` in the static text behind it (`{{ a }}Z}}` -> `{{ aZ}}` is a well-formed binding)
+                let rest = &src[close + 2..];
+                let stop = rest.find("{{").unwrap_or(rest.len()).min(rest.find('<').unwrap_or(rest.len()));
+                if rest[..stop].contains("}}") {
+                    return None;
+                }
                 Some((format!("{}{}", &src[..close], &src[close + 2..]), format!("closing braces of the binding {{{{{}}}}} removed", s.text)))
             }
         }
